@@ -623,6 +623,8 @@ def run(ck):
                "(verdicts: %s): the Newton iterations no longer reach the imposed loading" % (len(mts), {k: v for k, v in hist.items() if k.startswith("mt:")}),
                {"request": mts[0]["line"]})
     for key, (found, what, rep) in sorted(classes.items()):
+        if key.startswith("corr:") and classes.get(key[5:], (False,))[0]:
+            continue      # the same site is already reported with a concrete failing input
         ck.violation(key, what, rep, found)
 
     ck.assumptions += [
